@@ -258,3 +258,10 @@ package turn
 //@   loop 0 invariant server.nonceHash != nil
 //@   loop 0 invariant server.authHandler == config.AuthHandler && server.realm == config.Realm
 //@   loop 1 invariant server != nil && fresh(server) && serverDefaults(server, int(config.ChannelBindTimeout), int(config.PermissionTimeout), int(config.AllocationLifetime), config.InboundMTU) && server.authHandler == config.AuthHandler && server.realm == config.Realm
+
+// ---- C15 (control-connection close): when a TCP/TLS control connection ends, the allocation of exactly that
+// connection's 5-tuple is deleted and the connection is closed; the listener loop ends only when Accept fails.
+//@ func (*Server).readListener$1
+//@   assume-callee-pre
+//@   at-call (*allocation.Manager).DeleteAllocation assert [C04,C15:connection-close-deletes-own-allocation] recv == am && arg0.SrcAddr == remoteAddrOf(conn) && arg0.DstAddr == localAddrOf(conn) && int(arg0.Protocol) == 0
+//@   at-call invoke net.Conn.Close assert [C15:connection-closed-after-loop] recv == conn
